@@ -47,7 +47,7 @@ var dirs = []string{
 
 // map-typed range expressions (file suffix -> expression text) that must be iterated in owned order
 var mapRanges = map[string][]string{
-	"app/daemon/daemon.go":   {"d.workers"},
+	"app/daemon/daemon.go":   {"d.workers", "d.wgPerSameShutdownOrder"},
 	"kvstore/mapdb/mapdb.go": {"b.setOperations", "b.deleteOperations"},
 }
 
